@@ -60,6 +60,14 @@ func (d *Dump) String() string {
 	return b.String()
 }
 
+// KnownIndexExprs gives, for expression indexes created by the harness' own
+// scripts, the SQL text of their expression key columns (PRAGMA index_xinfo
+// does not report it).
+var KnownIndexExprs = map[string][]string{
+	"z_expr":  {"a + 1"},
+	"z_expr2": {"a * 2"},
+}
+
 // LiteDump is real SQLite's view
 func LiteDump(l *lite.DB) (*Dump, error) {
 	ts, err := LiteSchema(l)
@@ -84,7 +92,7 @@ func LiteDump(l *lite.DB) (*Dump, error) {
 		}
 		for j := range t.Indexes {
 			ix := &t.Indexes[j]
-			ob, ok := ix.OrderBy(nil)
+			ob, ok := ix.OrderBy(KnownIndexExprs[strings.ToLower(ix.Name)])
 			where := ""
 			if ix.Partial {
 				if ix.Where == "" {
